@@ -154,6 +154,7 @@ type Sim struct {
 	Deadlock   bool
 	states     map[uint64]struct{}
 	disk       *DiskState
+	timerSeq   int64
 	deathHooks []func(*Node)
 	atEnd      []func()
 	seq        int64
@@ -1220,3 +1221,35 @@ func (s *Sim) AtEnd(fn func()) { s.atEnd = append(s.atEnd, fn) }
 // NextSeq returns the next value of the run's global event sequence counter
 // (used to stamp invoke/return events of recorded histories).
 func (s *Sim) NextSeq() int64 { s.seq++; return s.seq }
+
+// timerEps returns a small per-timer offset (nanoseconds, unique per creation)
+// so that no two timers created by simulated code fire at exactly the same fake
+// instant: a goroutine selecting on several timer channels would otherwise be
+// woken in an order that depends on channel addresses (allocator), which is
+// not reproducible.
+func timerEps() time.Duration {
+	s := active.Load()
+	if s == nil {
+		return 0
+	}
+	s.timerSeq++
+	return time.Duration(1 + s.timerSeq%999983)
+}
+
+// TimerEps is timerEps for the clock shim.
+func TimerEps() time.Duration { return timerEps() }
+
+// NewTimer, NewTicker, After, Tick, AfterFunc are the rewritten forms of the
+// corresponding time functions in transformed code.
+func NewTimer(d time.Duration) *time.Timer   { return time.NewTimer(d + timerEps()) }
+func NewTicker(d time.Duration) *time.Ticker { return time.NewTicker(d + timerEps()) }
+func After(d time.Duration) <-chan time.Time { return time.After(d + timerEps()) }
+func Tick(d time.Duration) <-chan time.Time  { return time.Tick(d + timerEps()) }
+func AfterFunc(d time.Duration, f func()) *time.Timer {
+	s, t := Cur()
+	if s == nil || t == nil {
+		return time.AfterFunc(d, f)
+	}
+	node := t.Node
+	return time.AfterFunc(d+timerEps(), func() { s.GoForeign(node, "afterfunc", f) })
+}
